@@ -8,6 +8,7 @@ explicit side conditions.
 -/
 import StirVerif.C13.Proofs
 import StirVerif.C13.ProofsHistory
+import StirVerif.C13.ProofsParse
 import Mathlib.Analysis.Complex.Exponential
 
 namespace StirVerif.C13
@@ -210,13 +211,15 @@ theorem C13_use_is_checked (examEq : Bool) (t : UseTree) :
   refine ⟨useRV_iff t, ?_⟩
   simp [useWhole, useRV_iff, and_assoc]
 
-/-- the two refusals by `error()` in `set_up`: the attenuation class on data with more than one TOF position, the
-    components class on TOF data, data with view mashing or data with axial compression -/
-theorem C13_set_up_refusals (numTofPoss : Int) (tof mash span : Bool) :
-    (fromAttenSetUp numTofPoss = true ↔ numTofPoss ≤ 1) ∧
+/-- the two refusals by `error()` in `set_up`: the attenuation class on TOF data (TOF mashing factor `> 0`: also TOF data mashed
+    to ONE TOF bin — repaired code, fix C13-2; before it the test was the number of TOF positions and such data were accepted,
+    known finding `atten:tof-data-with-one-tof-bin:…`), the components class on TOF data, data with view mashing or data with
+    axial compression -/
+theorem C13_set_up_refusals (tofMashFactor : Int) (tof mash span : Bool) :
+    (fromAttenSetUp tofMashFactor = true ↔ tofMashFactor ≤ 0) ∧
       (componentsSetUp tof mash span = true ↔ tof = false ∧ mash = false ∧ span = false) := by
   constructor
-  · simp [fromAttenSetUp]
+  · simp [fromAttenSetUp, isTofData]
   · simp [componentsSetUp, and_assoc]
 
 /-- "whether called on related viewgrams with any symmetries or on a whole data set": processing the data group by
@@ -237,7 +240,10 @@ theorem C13_grouping_irrelevant (f : Bin → K → Option K) (gs gs' : List (Lis
   · rw [if_neg hb, if_neg (fun hx => hb ((hsame b).mpr hx))]
 
 /-- "TOF … data with non-TOF factors": the same stored factor (the one at timing position 0) for every TOF bin;
-    with TOF factors the bin's own timing position is used -/
+    with TOF factors the bin's own timing position is used.  (Since the fourth extension the correspondence runs this on TOF data
+    with mashing factor 1, a proper divisor of the scanner's number of TOF bins, and the maximum — ONE TOF bin, whose only timing
+    position is 0: the factor is the stored one there too, not a fraction of it; that `set_up` accepts all of these is
+    `C13_set_up_tof_data_nontof_factors`.) -/
 theorem C13_tof_data_nontof_factor (E : K → K) (floor : K) (f : Bin → K) (b : Bin) (t : Int) (v : K) :
     apply E floor (.fromProjData f false) { b with tof := t } v = some (v * f { b with tof := 0 }) ∧
       undo E (.fromProjData f false) { b with tof := t } v = undo E (.fromProjData f false) b v ∧
@@ -384,6 +390,102 @@ theorem C13_atten_box_acf (E : K → K) (mu len px py qx qy x0 x1 y0 y1 : K) :
         then (boxInterval px py qx qy x0 x1 y0 y1).2 - (boxInterval px py qx qy x0 x1 y0 y1).1 else 0))) := by
   simp [acfBox, boxFraction, ten_eq]
 
+/-! ### TOF data mashed to any number of TOF bins, with non-TOF factors -/
+
+/-- quantifier "TOF and non-TOF data with non-TOF factors": for factors that are not TOF data (mashing factor 0) and data that
+    ARE TOF data — ANY mashing factor `≥ 1`, the scanner's maximum (a single TOF bin) included: `is_tof_data()` looks at the
+    mashing factor, not at the number of TOF bins — `BinNormalisationFromProjData::set_up` decides by comparing the factors with
+    the NON-TOF CLONE of the data geometry, the comparison with the data geometry as it is (which fails on the mashing factor)
+    plays no role; so data whose non-TOF clone is the geometry of the factors are accepted.  In every other combination (TOF
+    factors, or non-TOF data) the data geometry is compared as it is. -/
+theorem C13_set_up_tof_data_nontof_factors (normMash dataMash : Int) (asIs nonTofClone : GeomCmp) :
+    (normMash ≤ 0 → 0 < dataMash →
+        fromProjDataSetUpTof normMash dataMash asIs nonTofClone = nonTofClone.accepts ∧
+          (nonTofClone.equal = true → fromProjDataSetUpTof normMash dataMash asIs nonTofClone = true)) ∧
+      ((0 < normMash ∨ dataMash ≤ 0) → fromProjDataSetUpTof normMash dataMash asIs nonTofClone = asIs.accepts) := by
+  constructor
+  · intro hn hd
+    have h : fromProjDataUsesNonTofClone normMash dataMash = true := by
+      simp [fromProjDataUsesNonTofClone, isTofData, hd, not_lt.mpr hn]
+    refine ⟨by simp [fromProjDataSetUpTof, h], fun he => ?_⟩
+    simp [fromProjDataSetUpTof, h, GeomCmp.accepts, fromProjDataSetUp, he]
+  · intro h
+    have h' : fromProjDataUsesNonTofClone normMash dataMash = false := by
+      rcases h with h | h
+      · simp [fromProjDataUsesNonTofClone, isTofData, h]
+      · simp [fromProjDataUsesNonTofClone, isTofData, not_lt.mpr h]
+    simp [fromProjDataSetUpTof, h']
+
+/-! ### one object through constructors, `parse` and `set_up` (the harness runs such histories on ONE object of every class
+    that has parsing keys) -/
+
+/-- "undoing the normalisation multiplies each bin by one fixed positive factor … applying divides by the same factor" — for a
+    `BinNormalisationFromProjData` object that is PARSED AGAIN: after ANY history of `parse` / `set_up` calls on ANY object
+    (default-constructed, constructed from a file or a `ProjData`, parsed before with another file, set up or not) that ends
+    with parsing the file `f` and a `set_up`, the object is set up and its `undo` and `apply` are those of the factors of THAT
+    file — `parse` replaces the stored factors unconditionally; so every theorem above about `Norm.fromProjData f` applies
+    (`C13_directions`, `C13_tof_data_nontof_factor`, `C13_apply_undo_id`, …).  `set_up` on its own never changes the factors,
+    and an object that was never given factors cannot be set up (the C++ dereferences a null pointer). -/
+theorem C13_fromProjData_parse_history (E : K → K) (floor : K) (hs : List (FpdStep K)) (o o' : FpdObj K)
+    (f : (Bin → K) × Bool) (acc : Bool) (h : FpdObj.run o (hs ++ [.parse f, .setUp acc]) = some o') :
+    o' = ⟨some f, true⟩ ∧ o'.norm? = some (.fromProjData f.1 f.2) ∧
+      (∀ b v, o'.undo E b v = undo E (.fromProjData f.1 f.2) b v ∧
+        o'.apply E floor b v = apply E floor (.fromProjData f.1 f.2) b v) ∧
+      (∀ (o₁ o₂ : FpdObj K) (a r : Bool), o₁.setUp a = some (o₂, r) → o₂.factors = o₁.factors ∧ r = a) ∧
+      (FpdObj.new : FpdObj K).setUp acc = none := by
+  rw [fpdObj_run_append] at h
+  cases h1 : FpdObj.run o hs with
+  | none => simp [h1] at h
+  | some o1 =>
+    simp only [h1, Option.bind_some, fpdObj_parse_setUp, Option.some.injEq] at h
+    subst h
+    refine ⟨rfl, (fpdObj_observe E floor f ⟨0, 0, 0, 0, 0⟩ 0).1, fun b v => (fpdObj_observe E floor f b v).2,
+      fun o₁ o₂ a r hs => ?_, rfl⟩
+    obtain ⟨a1, _, a3, _⟩ := fpdObj_setUp_factors o₁ o₂ a r hs
+    exact ⟨a1, a3⟩
+
+/-- "the attenuation correction factors obtained from an attenuation map given in cm^-1 are the exponentials of its line
+    integrals" — for a `BinNormalisationFromAttenuationImage` object that is PARSED AGAIN: whatever the object held before
+    (nothing, the image of an earlier text, an image given to a constructor — rescaled or not), parsing a text that names the
+    image file `file` makes it hold THAT image, rescaled once; after a `set_up` its `undo` / `apply` are those of
+    `Norm.fromAtten` for that image (so `C13_atten_is_exp_line_integral` applies), and the same holds for the two constructors.
+    (Repaired code, fix C13-1: before it this needed the hypothesis that the object held no image yet, and a second parse kept
+    the first image, rescaled twice.) -/
+theorem C13_atten_parse_history {ι : Type} (E : K → K) (floor : K) (o o₁ o₂ : AttenObj ι K) (file : ι)
+    (numTofPoss : Int) (images : ι → K × (Bin → List (K × K)))
+    (h1 : o.postProcessing (some file) = some o₁) (h2 : o₁.setUp numTofPoss images = some o₂) :
+    (∀ b v, o₂.undo E b v = undo E (.fromAtten (images file).1 (images file).2) b v ∧
+        o₂.apply E b v = apply E floor (.fromAtten (images file).1 (images file).2) b v) ∧
+      (AttenObj.ofFile file : Option (AttenObj ι K)) = some ⟨some (file, 1), false, fun _ => 0⟩ ∧
+      (AttenObj.ofImage file : Option (AttenObj ι K)) = some ⟨some (file, 1), false, fun _ => 0⟩ := by
+  rw [attenObj_postProcessing_file o file, Option.some.injEq] at h1
+  subst h1
+  refine ⟨(attenObj_setUp_observe E floor _ o₂ file numTofPoss images rfl h2).2, ?_, ?_⟩
+  · simp [AttenObj.ofFile, AttenObj.new, AttenObj.postProcessing]
+  · simp [AttenObj.ofImage, AttenObj.postProcessing]
+
+/-- … and a `post_processing` without a file name (an object constructed from an image, parsed with a text that names no file)
+    leaves an image that was rescaled as it is: it is never rescaled twice -/
+theorem C13_atten_post_processing_rescales_once {ι : Type} (o o₁ : AttenObj ι K) (i : ι) (k : Nat)
+    (h0 : o.img = some (i, k + 1)) (h1 : o.postProcessing none = some o₁) : o₁.img = some (i, k + 1) := by
+  rw [attenObj_postProcessing_held o i k h0, Option.some.injEq] at h1
+  subst h1
+  rfl
+
+/-- "A chain has the product of its members' efficiencies" — for a `ChainedBinNormalisation` object that is PARSED AGAIN: a text
+    that gives both member keys replaces both members (`None` gives a null member), whatever the object held before; after
+    `set_up` the object is `Norm.chained` of the members of the LAST text (every theorem about chains applies:
+    `C13_chain_binary`, `C13_chain_partial`, `C13_chain_null_member`); the new members were never set up, so until `set_up`
+    the object is not usable if it has a member with a check; a text without a member key leaves that member alone -/
+theorem C13_chain_parse_history {ι : Type} (o : ChainObj ι) (a b : Option ι) (resolve : ι → Norm K) :
+    (∃ o₁, o.parse (some a) (some b) true = some o₁ ∧ o₁.membersSetUp = false ∧ o₁.setUp.membersSetUp = true ∧
+        o₁.setUp.norm resolve = .chained ((a.map resolve).getD .null) ((b.map resolve).getD .null)) ∧
+      (∃ o₁, o.parse none (some b) true = some o₁ ∧ o₁.first = o.first ∧ o₁.second = b) ∧
+      o.parse (some a) (some b) false = none := by
+  refine ⟨⟨_, chainObj_parse_both o a b, rfl, rfl, rfl⟩, ⟨⟨o.first, b, o.ownSetUp, false⟩, ?_, rfl, rfl⟩, by simp [ChainObj.parse]⟩
+  simp [ChainObj.parse, MemberKey.applyTo]
+
+
 /-! ### non-vacuity: concrete instances satisfying the hypotheses -/
 
 /-- a TOF bin -/
@@ -427,7 +529,7 @@ example : useRV (.chain false true (.checked true true) (.chain false true (.noC
     useWhole true (.chain false true (.checked true true) (.checked true true)) = false ∧
     useRV (.chain true true (.checked true true) (.checked true false)) = false ∧
     useWhole false (.checked true true) = false ∧ useWhole true (.checked true true) = true ∧
-    fromAttenSetUp 5 = false ∧ fromAttenSetUp 1 = true ∧ componentsSetUp true false false = false ∧
+    fromAttenSetUp 5 = false ∧ fromAttenSetUp 0 = true ∧ componentsSetUp true false false = false ∧
     componentsSetUp false false false = true := by
   decide
 
@@ -515,6 +617,40 @@ example : ([[(⟨0, 0, 0, 0, 0⟩ : Bin), ⟨0, 1, 0, 0, 0⟩], [⟨0, 2, 0, 0, 
     ([[(⟨0, 0, 0, 0, 0⟩ : Bin), ⟨0, 3, 0, 0, 0⟩, ⟨0, 2, 0, 0, 0⟩, ⟨0, 1, 0, 0, 0⟩]] : List (List Bin)).flatten.Nodup := by
   decide
 
+/-- TOF data with one TOF bin (5 TOF bins mashed by 5) and non-TOF factors of the geometry of its non-TOF clone: the geometries as
+    they are differ (mashing factor), the clone is equal: accepted; with the roles exchanged (TOF factors, non-TOF data): refused -/
+example : fromProjDataSetUpTof 0 5 ⟨false, false, true, true, true⟩ ⟨true, true, true, true, true⟩ = true ∧
+    fromProjDataSetUpTof 5 0 ⟨false, false, true, true, true⟩ ⟨true, true, true, true, true⟩ = false ∧ isTofData 5 = true := by
+  decide
+
+/-- a `BinNormalisationFromProjData` object: default-constructed, parsed with a file of factors 2, set up, parsed with a file of
+    factors 5 (TOF), set up: it multiplies by 5 -/
+example : ∃ o : FpdObj ℚ,
+    FpdObj.run FpdObj.new ([.parse (fun _ => 2, false), .setUp true] ++ [.parse (fun _ => 5, true), .setUp true]) = some o ∧
+      o.apply (fun _ => 1) exFloor exBin 3 = some 15 ∧ o.undo (fun _ => 1) exBin 15 = some 3 := by
+  refine ⟨⟨some (fun _ => 5, true), true⟩, by simp [FpdObj.run, FpdObj.parse, FpdObj.setUp, FpdObj.new], ?_, ?_⟩
+  · simp [FpdObj.apply, FpdObj.norm?, apply]; norm_num
+  · simp [FpdObj.undo, FpdObj.norm?, undo, fdiv]; norm_num
+
+/-- two attenuation images (`false`: one voxel of 2 cm^-1, `true`: 4 cm^-1; x voxel size 5 mm, row element 1) -/
+def exImages : Bool → ℚ × (Bin → List (ℚ × ℚ)) := fun i => (5, fun _ => [(1, if i then 4 else 2)])
+
+/-- what `AttenObj.setUp` is told about non-TOF data: TOF mashing factor 0 -/
+def exNonTof : Int := 0
+
+/-- parsed once with image `true`: the exponent is 1 · 4 · 5/10 = 2 -/
+example : ∃ o₁ o₂ : AttenObj Bool ℚ, (AttenObj.new : AttenObj Bool ℚ).postProcessing (some true) = some o₁ ∧
+    o₁.setUp exNonTof exImages = some o₂ ∧ o₂.li exBin = 2 ∧ o₂.apply id exBin 3 = some 6 := by
+  refine ⟨_, _, rfl, rfl, ?_, ?_⟩
+  · simp [exImages, lineIntegralK, rescaled, attenRescale, ten]; norm_num
+  · simp [AttenObj.apply, exImages, lineIntegralK, rescaled, attenRescale, ten]; norm_num
+
+/-- a chain object parsed with members `1`, `2`, then with (`None`, `3`): it is the chain (null, member 3) -/
+example : ∃ o₁ o₂ : ChainObj Nat, (ChainObj.new : ChainObj Nat).parse (some (some 1)) (some (some 2)) true = some o₁ ∧
+    o₁.setUp.parse (some none) (some (some 3)) true = some o₂ ∧ o₂.membersSetUp = false ∧
+    o₂.setUp.norm (fun m => (.table fun _ => (m : ℚ)) : Nat → Norm ℚ) = .chained .null (.table fun _ => 3) := by
+  exact ⟨_, _, rfl, rfl, rfl, rfl⟩
+
 /-! ### negative witnesses (what the code does outside the hypotheses) -/
 
 /-- below the floor apply-then-undo does NOT restore the data: efficiency 0 gives 0, efficiency `1e-25` scales by `1e-5` -/
@@ -542,5 +678,17 @@ theorem C13_trivial_id_fails :
 theorem C13_overlapping_groups_fail :
     onGroups (fun _ (v : ℚ) => some (v * 2)) [[exBin], [exBin]] (fun _ => some 1) exBin = some 4 := by
   simp [onGroups, onGroup]; norm_num
+
+/-- ONE `BinNormalisationFromAttenuationImage` object parsed twice (repaired code; before `fix: BinNormalisationFromAttenuationImage
+    reads the image again when parsed again` the second parse kept image `false`, rescaled twice: exponent 1/2, known finding
+    `atten:post_processing-twice-on-one-object:…`): default-constructed, parsed with image `false` (2 cm^-1), parsed with image
+    `true` (4 cm^-1), set up: the exponent is the line integral 1 · 4 · 5/10 = 2 of the image named by the last text -/
+theorem C13_atten_second_parse :
+    ∃ o₁ o₂ o₃ : AttenObj Bool ℚ, (AttenObj.new : AttenObj Bool ℚ).postProcessing (some false) = some o₁ ∧
+      o₁.postProcessing (some true) = some o₂ ∧ o₂.setUp exNonTof exImages = some o₃ ∧ o₃.img = some (true, 1) ∧
+      o₃.li exBin = 2 ∧ lineIntegral (exImages true).1 ((exImages true).2 exBin) = 2 := by
+  refine ⟨_, _, _, rfl, rfl, rfl, rfl, ?_, ?_⟩
+  · simp [exImages, lineIntegralK, rescaled, attenRescale, ten]; norm_num
+  · simp [exImages, lineIntegral, attenRescale, ten]; norm_num
 
 end StirVerif.C13
